@@ -218,6 +218,12 @@ theorem C17_subst_defined_first (t : FixTable) (ht : t.isEmpty = false) (rest : 
   intro k hk
   exact firstMatch_none h k ((mem_sortKeys t k).mpr hk)
 
+/-- **The order of the fixup table is irrelevant**: two tables with the same (distinct) variables
+and values substitute every text alike — although the pattern is built from the dict order. -/
+theorem C17_subst_order_irrelevant (t₁ t₂ : FixTable) (hp : t₁.Perm t₂)
+    (hnd : (t₁.map (·.1)).Nodup) (d text : List Char) :
+    substitute t₁ d text = substitute t₂ d text := substGo_perm hp hnd d text 0
+
 /-- As coded, an EMPTY fixup table makes the pattern's first alternative the empty string, so every
 `$` is replaced by the default on its own (`$abc` → `abc` with default `''`), whereas with a
 non-empty table an undefined identifier is replaced as a whole (`$abc` → `''`). -/
